@@ -182,10 +182,10 @@ def check(pid, tier, seed):
             ln = 3 * (1 << 20) + rnd.randrange(0, 5000)
         cfg = "roundtrip=1 seed=%d len=%d flavour=%d append=%d text=%d companion=%d dir=%s" % (rnd.randrange(1, 2 ** 31), ln, rnd.randrange(3), rnd.randrange(2), rnd.randrange(2), 1 if i % 3 == 0 else 0, scratch)
         if i < 4:
-            # one call that carries more than 2^21 bytes, through each of the four write overloads (as records: > 2^20 records of
-            # 2, 4 or 8 bytes in one call); nothing in File may depend on how much a single call hands over
+            # one call that carries more than 2^23 bytes, through each of the four write overloads (as records: > 2^20 records of
+            # 8, 4 or 2 bytes in one call); nothing in File may depend on how much a single call hands over
             cfg = "roundtrip=1 seed=%d len=%d flavour=%d append=0 text=%d companion=0 maxchunk=1 via=%d dir=%s" % (
-                rnd.randrange(1, 2 ** 31), 2 * ((1 << 21) + 2 * rnd.randrange(1, 3000)) + (0 if i == 2 else rnd.randrange(2)), rnd.randrange(3), rnd.randrange(2), i, scratch)
+                rnd.randrange(1, 2 ** 31), 8 * ((1 << 20) + rnd.randrange(1, 3000)) + (rnd.choice([0, 2, 4]) if i == 2 else rnd.randrange(2)), rnd.randrange(3), rnd.randrange(2), i, scratch)
             cfg = cfg.replace("maxchunk=1 ", "maxchunk=%d " % (1 << 40))
         rlines += ["X rt%d %s" % (i, cfg), "E"]
         rcfg["rt%d" % i] = cfg
